@@ -79,6 +79,10 @@ EXPLANATION += (
     ' Round 8: all genes enter the Holm correction whatever the gene list (R-ARITH/holm-counts-all-genes); marker files can be written when a direction has no marker and for chunks of a single pair (findings F9, F10).'
 )
 
+EXPLANATION += (
+    ' Mean and variance of a node are S / N and (Q - S^2/N)/(N - 1) of the statistics summed over its leaves, compared as rational functions (R-ARITH/moments).'
+)
+
 RULE_TEXT = (
     "one obligation per arithmetic relation (quotient, multiplier, "
     "comparison operator, conjunction operand) and per guard; polynomial "
@@ -98,6 +102,7 @@ SC = 'diff_exp.scores:'
 
 def check(ctx):
     check_welch(ctx)
+    check_moments(ctx)
     check_two_sided(ctx)
     check_holm(ctx)
     check_restricted_holm(ctx)
@@ -1554,3 +1559,67 @@ def check_all_genes_corrected(ctx):
                'vectors is corrected' if ok else
                f'diffexp_p_values returns {fmt_term(t)[:80]}: not the '
                'correction of the t-test\'s whole p-value vector')
+
+
+def check_moments(ctx, rule='R-ARITH/moments'):
+    """the mean and variance that enter the t-test (and, for the mean, the
+    correlation with the centroids) are computed from the summed
+    statistics of the leaves as  S / N  and  (Q - S^2 / N) / (N - 1), where
+    S, Q and N are what the loop accumulates from the 'sum', 'sumsq' and
+    'n_cells' entries; compared as rational functions, the guards that
+    keep the denominators away from zero looked through."""
+    fi, cfg, rd, ex = _fn(ctx, 'diff_exp.score_utils:aggregate_stats')
+
+    def atoms(t):
+        if isinstance(t, tuple) and t and t[0] in ('phi', 'aug'):
+            keys = set()
+            for x in T.subterms(t):
+                if isinstance(x, tuple) and x and x[0] == 'aug' \
+                        and x[1] == 'Add':
+                    inc = x[3]
+                    if isinstance(inc, tuple) and inc[0] == 'sub' \
+                            and inc[2][0] == 'const':
+                        keys.add(inc[2][1].strip('\'"'))
+            if len(keys) == 1:
+                return P.atom(('ACC', next(iter(keys))))
+        return None
+    S, Q, N = (P.atom(('ACC', k)) for k in ('sum', 'sumsq', 'n_cells'))
+    one = P.const(1)
+    want = {
+        'mean': (S, N),
+        'var': (P._add(P._mul(Q, N), P._mul(S, S), -1),
+                P._mul(N, P._add(N, one, -1))),
+    }
+    # the record returned: key -> expression
+    found = dict()
+    for node in cfg.nodes:
+        if node.id not in rd.live or node.kind != 'stmt' \
+                or not isinstance(node.ast, ast.Assign):
+            continue
+        v = node.ast.value
+        if isinstance(v, ast.Dict):
+            for k, e in zip(v.keys, v.values):
+                if isinstance(k, ast.Constant) and k.value in want:
+                    found[k.value] = (e, node)
+        tg = node.ast.targets[0]
+        if isinstance(tg, ast.Subscript) and isinstance(
+                tg.slice, ast.Constant) and tg.slice.value in want:
+            found[tg.slice.value] = (v, node)
+    for k in sorted(want):
+        if k not in found:
+            raise AnalysisError(f"aggregate_stats: the '{k}' entry of the "
+                                'result was not found')
+        e, node = found[k]
+        t = ex.expand(e, node.id)
+        try:
+            ok = P.same_ratio(P.ratio(t, atoms), want[k])
+        except P.NotPolynomial:
+            ok = False
+        ctx.ob(rule, f'aggregate_stats:{k}', fi.loc(node.ast), ok,
+               f"'{k}' is " + ('S / N' if k == 'mean'
+                               else '(Q - S^2 / N) / (N - 1)') if ok else
+               f"the '{k}' of a node is computed as "
+               f'{fmt_term(t)[:100]}, which is not '
+               + ('sum / n_cells' if k == 'mean' else
+                  '(sumsq - sum^2 / n_cells) / (n_cells - 1)')
+               + ' of the statistics summed over its leaves')
